@@ -140,9 +140,9 @@ Definition mockall_value (o : opts) := dflt (o_mockall o) false.
 
 Definition is_some {A} (x : option A) : bool := match x with Some _ => true | None => false end.
 
-(** [Opts::mockable]: decided by presence, not by value *)
+(** [Opts::mockable] *)
 Definition mockable (o : opts) : bool :=
-  (is_some (o_unimock o) && is_some (o_mock_api o)) || is_some (o_mockall o).
+  (unimock_value o && is_some (o_mock_api o)) || mockall_value o.
 
 Definition unsupported : err := EMsg "Unsupported option".
 
